@@ -24,10 +24,12 @@
                        only inside `MIN_UTC ..= MAX_UTC` (`ActsOnWallWith ok`: another filter).
 -/
 import Chrono.Proofs.DateTimeOpsL
+import Chrono.Proofs.MonthsOpsL
+import Chrono.Proofs.TimeStrictL
 
 namespace Chrono.Props.C08
 open Chrono Chrono.M Chrono.Spec Chrono.Proofs Chrono.Proofs.ZN Chrono.Proofs.DTO Chrono.Extracted
-  Chrono.Extracted.DateOps
+  Chrono.Extracted.DateOps Chrono.Proofs.MOps Chrono.Proofs.TStrictL
 
 /-! ### data re-extracted from the source on this run -/
 
@@ -559,6 +561,368 @@ theorem datetime_years_since_spec (z b : Zoned) (hz : ZInv z) (hb : ZInv b) :
   · unfold Zoned.day; rw [b1]; exact db
   · exact (ka 0).2.trans hw
 
+/-! ## Audit gaps closed 2026-09-30 (audit/C08.md): operator forms, constructors' view of time-field
+replacement, headroom wall clocks, inherited `Datelike` defaults, the month/day of a date -/
+
+/-! ### the month and day of a date (discharges the hypothesis `1 ≤ d` of `months_target`) -/
+
+/-- the (month, day) of every date `dateOfYo y o` (any year): month in 1..12, day in 1..month length,
+and `(y, month, day)` is the `o`-th day of the year — so `months_target`, `replaced_fields` apply to
+`monthOfYo y o`, `dayOfYo y o` without further hypotheses -/
+theorem date_month_day (y : Int) (o : Nat) (ho : 1 ≤ o ∧ o ≤ yearLen y) :
+    (dateOfYo y o).month = .ok (monthOfYo y o) ∧ (dateOfYo y o).day = .ok (dayOfYo y o) ∧
+    1 ≤ monthOfYo y o ∧ monthOfYo y o ≤ 12 ∧ 1 ≤ dayOfYo y o ∧
+    dayOfYo y o ≤ monthLen y (monthOfYo y o) ∧ ordinalOf y (monthOfYo y o) (dayOfYo y o) = o := by
+  obtain ⟨m1, m2, m3, m4⟩ := month_day_spec y o ho.1 ho.2
+  obtain ⟨a, b, c, d⟩ := (valid_iff y _ _).mp m3
+  exact ⟨m1, m2, a, b, c, d, m4⟩
+
+/-- `months_target` for the month and day of a date of the range, no side hypothesis left: the
+year-month index moves by exactly `n`, the step fails exactly when the target year leaves the range,
+and the result has the target year, target month and the day clamped to that month's length -/
+theorem months_target_of_date (y : Int) (o : Nat) (ho : 1 ≤ o ∧ o ≤ yearLen y) (n : Int) :
+    monthIndex (stepYear y (monthOfYo y o) n) (stepMonth y (monthOfYo y o) n) = monthIndex y (monthOfYo y o) + n ∧
+    (addMonths? y (monthOfYo y o) (dayOfYo y o) n = none ↔
+      (stepYear y (monthOfYo y o) n < MIN_YEAR ∨ stepYear y (monthOfYo y o) n > MAX_YEAR)) ∧
+    (∀ r, addMonths? y (monthOfYo y o) (dayOfYo y o) n = some r →
+      r.year = stepYear y (monthOfYo y o) n ∧ r.month = .ok (stepMonth y (monthOfYo y o) n) ∧
+      r.day = .ok (min (dayOfYo y o) (monthLen (stepYear y (monthOfYo y o) n) (stepMonth y (monthOfYo y o) n)))) := by
+  obtain ⟨_, _, _, _, hd, _⟩ := date_month_day y o ho
+  obtain ⟨a, _, _, b, c⟩ := months_target y (monthOfYo y o) (dayOfYo y o) n hd
+  exact ⟨a, b, c⟩
+
+/-! ### operator forms `+ Months` / `- Months` (`expect` of the checked forms) -/
+
+/-- `NaiveDate + Months(n)` / `NaiveDate - Months(n)`, every date of the range and EVERY `u32` (every
+natural) count: the specification's `addMonths?` result, and a panic exactly when there is none — i.e.
+exactly when the checked form answers `None`, i.e. exactly when the target year lies above `MAX_YEAR`
+(resp. below `MIN_YEAR`); `Months::new` / `as_u32` carry the count unchanged -/
+theorem months_op_spec (y : Int) (o : Nat) (hy : MIN_YEAR ≤ y ∧ y ≤ MAX_YEAR) (ho : 1 ≤ o ∧ o ≤ yearLen y)
+    (n : Nat) :
+    (dateOfYo y o).add_months_op n = orPanic (addMonths? y (monthOfYo y o) (dayOfYo y o) n) ∧
+    (dateOfYo y o).sub_months_op n = orPanic (addMonths? y (monthOfYo y o) (dayOfYo y o) (-(n : Int))) ∧
+    ((dateOfYo y o).add_months_op n = .panic ↔ (dateOfYo y o).checked_add_months n = .ok none) ∧
+    ((dateOfYo y o).sub_months_op n = .panic ↔ (dateOfYo y o).checked_sub_months n = .ok none) ∧
+    ((dateOfYo y o).add_months_op n = .panic ↔ stepYear y (monthOfYo y o) n > MAX_YEAR) ∧
+    ((dateOfYo y o).sub_months_op n = .panic ↔ stepYear y (monthOfYo y o) (-(n : Int)) < MIN_YEAR) ∧
+    Months.as_u32 (Months.new n) = n := by
+  obtain ⟨a, s⟩ := date_months_op y o hy ho n
+  obtain ⟨ca, cs⟩ := months_spec y o hy ho n
+  obtain ⟨_, _, hm1, hm12, hd1, _⟩ := date_month_day y o ho
+  have na := addMonths_none_iff y (monthOfYo y o) (dayOfYo y o) n hd1
+  have ns := addMonths_none_iff y (monthOfYo y o) (dayOfYo y o) (-(n : Int)) hd1
+  have hlo : ¬ stepYear y (monthOfYo y o) n < MIN_YEAR := by unfold stepYear monthIndex; omega
+  have hhi : ¬ stepYear y (monthOfYo y o) (-(n : Int)) > MAX_YEAR := by unfold stepYear monthIndex; omega
+  refine ⟨a, s, ?_, ?_, ?_, ?_, rfl⟩
+  · rw [a, ca, orPanic_panic_iff]
+    constructor
+    · intro h; rw [h]
+    · intro h; injection h
+  · rw [s, cs, orPanic_panic_iff]
+    constructor
+    · intro h; rw [h]
+    · intro h; injection h
+  · rw [a, orPanic_panic_iff, na]
+    constructor
+    · intro h; rcases h with h | h
+      · exact absurd h hlo
+      · exact h
+    · intro h; exact Or.inr h
+  · rw [s, orPanic_panic_iff, ns]
+    constructor
+    · intro h; rcases h with h | h
+      · exact h
+      · exact absurd h hhi
+    · intro h; exact Or.inl h
+
+/-- `NaiveDateTime ± Months(n)`: the date-level result with the time of day kept, a panic exactly when
+the date-level step has no result (every date of the range, every time of day, every count) -/
+theorem naive_months_op_spec (y : Int) (o : Nat) (hy : MIN_YEAR ≤ y ∧ y ≤ MAX_YEAR) (ho : 1 ≤ o ∧ o ≤ yearLen y)
+    (t : Time) (k : Nat) :
+    let dt : NaiveDT := ⟨dateOfYo y o, t⟩
+    dt.add_months_op k = orPanic ((addMonths? y (monthOfYo y o) (dayOfYo y o) k).map fun d => ⟨d, t⟩) ∧
+    dt.sub_months_op k = orPanic ((addMonths? y (monthOfYo y o) (dayOfYo y o) (-(k : Int))).map fun d => ⟨d, t⟩) ∧
+    (dt.add_months_op k = .panic ↔ (dateOfYo y o).add_months_op k = .panic) ∧
+    (dt.sub_months_op k = .panic ↔ (dateOfYo y o).sub_months_op k = .panic) := by
+  obtain ⟨m1, m2, _⟩ := naive_datetime_spec y o hy ho t 0 k 0
+  obtain ⟨a, s⟩ := date_months_op y o hy ho k
+  dsimp only at m1 m2 ⊢
+  have e1 : NaiveDT.add_months_op ⟨dateOfYo y o, t⟩ k =
+      orPanic ((addMonths? y (monthOfYo y o) (dayOfYo y o) k).map fun d => ⟨d, t⟩) := by
+    unfold NaiveDT.add_months_op; rw [m1, expectSome_ok]
+  have e2 : NaiveDT.sub_months_op ⟨dateOfYo y o, t⟩ k =
+      orPanic ((addMonths? y (monthOfYo y o) (dayOfYo y o) (-(k : Int))).map fun d => ⟨d, t⟩) := by
+    unfold NaiveDT.sub_months_op; rw [m2, expectSome_ok]
+  refine ⟨e1, e2, ?_, ?_⟩
+  · rw [e1, a, orPanic_panic_iff, orPanic_panic_iff]
+    cases addMonths? y (monthOfYo y o) (dayOfYo y o) k with
+    | none => exact ⟨fun _ => rfl, fun _ => rfl⟩
+    | some d => exact ⟨fun h => (by cases h), fun h => (by cases h)⟩
+  · rw [e2, s, orPanic_panic_iff, orPanic_panic_iff]
+    cases addMonths? y (monthOfYo y o) (dayOfYo y o) (-(k : Int)) with
+    | none => exact ⟨fun _ => rfl, fun _ => rfl⟩
+    | some d => exact ⟨fun h => (by cases h), fun h => (by cases h)⟩
+
+/-- `DateTime<FixedOffset> ± Months(k)` (`DateTime<Utc>`: offset 0), every well-formed value (wall clock
+possibly in a headroom day), every count: with `l` the wall clock, `r0` what `NaiveDateTime`'s checked step
+makes of `l` and `r` the checked zone-aware result (`ActsOnWallWith InRangeSecs`: `r0` at the same offset,
+kept iff its UTC reading is representable; `Months(0)` returns the value itself), the operator returns
+`r`'s value and panics exactly when `r` is `None`, i.e. exactly when the naive step refuses or the
+stepped wall clock minus the offset is not representable -/
+theorem zoned_months_op_spec (z : Zoned) (hz : ZInv z) (k : Nat) :
+    ∃ l, Zoned.overflowing_naive_local z = .ok l ∧ ExtNDTInv l ∧ instSecs l = wallSecs z ∧
+      (∃ r0 r, l.checked_add_months k = .ok r0 ∧ Zoned.checked_add_months z k = .ok r ∧
+        ActsOnWallWith (fun s _ => InRangeSecs s) z r0 r ∧ (k = 0 → r = some z) ∧
+        Zoned.add_months_op z k = orPanic r ∧
+        (Zoned.add_months_op z k = .panic ↔
+          (r0 = none ∨ ∃ nl, r0 = some nl ∧ ¬ InRangeSecs (instSecs nl - z.off)))) ∧
+      (∃ r0 r, l.checked_sub_months k = .ok r0 ∧ Zoned.checked_sub_months z k = .ok r ∧
+        ActsOnWallWith (fun s _ => InRangeSecs s) z r0 r ∧ (k = 0 → r = some z) ∧
+        Zoned.sub_months_op z k = orPanic r ∧
+        (Zoned.sub_months_op z k = .panic ↔
+          (r0 = none ∨ ∃ nl, r0 = some nl ∧ ¬ InRangeSecs (instSecs nl - z.off)))) := by
+  obtain ⟨l, h1, h2, h3, _⟩ := naive_local_spec z hz
+  obtain ⟨a, s⟩ := zoned_months_op z hz l h1 k
+  exact ⟨l, h1, h2, h3, a, s⟩
+
+/-! ### headroom wall clocks: the calendar meaning of the naive operations on EVERY wall clock -/
+
+/-- every reading `l` of the calendar extended by one year at each end — in particular every wall clock
+of a well-formed zone-aware value (`zoned_ops_spec`: `ExtNDTInv l`), also one in the day before `MIN` /
+after `MAX` — and every argument: the `NaiveDateTime` month steps and date-field replacements are the
+specification's date (`addMonths?`, `ymdDate?`: in the supported range; `ymdReading?`, `yoReading?`: same
+year, so possibly the headroom year) with the time of day kept; `Months(0)` keeps the reading; the
+operator forms panic exactly on `None`.  This gives `r0` of `zoned_ops_spec` its calendar meaning without
+the restriction `InRangeSecs (wallSecs z)`. -/
+theorem wall_clock_ops_spec (l : NaiveDT) (hl : ExtNDTInv l) (v k : Nat) (y' : Int) :
+    let y := l.date.year
+    let m := monthOfYo l.date.year l.date.ordinal.toNat
+    let d := dayOfYo l.date.year l.date.ordinal.toNat
+    l.checked_add_months k = .ok ((if k = 0 then some l.date else addMonths? y m d k).map fun x => ⟨x, l.time⟩) ∧
+    l.checked_sub_months k =
+      .ok ((if k = 0 then some l.date else addMonths? y m d (-(k : Int))).map fun x => ⟨x, l.time⟩) ∧
+    l.add_months_op k = orPanic ((if k = 0 then some l.date else addMonths? y m d k).map fun x => ⟨x, l.time⟩) ∧
+    l.sub_months_op k =
+      orPanic ((if k = 0 then some l.date else addMonths? y m d (-(k : Int))).map fun x => ⟨x, l.time⟩) ∧
+    l.with_year y' = .ok ((ymdDate? y' m d).map fun x => ⟨x, l.time⟩) ∧
+    l.with_month v = .ok (ymdReading? y v d l.time) ∧
+    l.with_month0 v = .ok (ymdReading? y (v + 1) d l.time) ∧
+    l.with_day v = .ok (ymdReading? y m v l.time) ∧
+    l.with_day0 v = .ok (ymdReading? y m (v + 1) l.time) ∧
+    l.with_ordinal v = .ok (yoReading? y v l.time) ∧
+    l.with_ordinal0 v = .ok (yoReading? y (v + 1) l.time) ∧
+    (MIN_YEAR - 1 ≤ y ∧ y ≤ MAX_YEAR + 1 ∧ 1 ≤ m ∧ m ≤ 12 ∧ 1 ≤ d ∧ d ≤ monthLen y m ∧
+      l.date = dateOfYo y (ordinalOf y m d)) := by
+  obtain ⟨n1, n2, n3, n4, n5, n6, n7, n8, n9⟩ := ndt_ops_ext l hl.1 v k y'
+  obtain ⟨o1, o2⟩ := ndt_months_op l hl.1 k
+  obtain ⟨el, vl⟩ := ext_eq l.date hl.1
+  obtain ⟨_, _, a, b, c, d, e⟩ := date_month_day l.date.year l.date.ordinal.toNat ⟨vl.2.2.1, vl.2.2.2⟩
+  dsimp only
+  refine ⟨n8, n9, o1, o2, n1, n2, n3, n4, n5, n6, n7, vl.1, vl.2.1, a, b, c, d, ?_⟩
+  rw [e]; exact el
+
+/-- the closure `DateTime::with_year` hands to `map_local` (`withYearLocal`, which `zoned_ops_spec` names and
+which is a copy of the model's) against the independent reading of Spec/ZonedSpec.lean, for every wall
+clock `l` (headroom day included): the wall clock itself when the year is unchanged (also a headroom
+year), otherwise the same month, day and time of day in year `y'` if `y'` is in the supported range and
+that date exists, else nothing -/
+theorem with_year_local_spec (l : NaiveDT) (hl : ExtNDTInv l) (y' : Int) :
+    withYearLocal y' l = .ok (yearReading? l y') ∧
+    (yearReading? l l.date.year = some l) ∧
+    (y' ≠ l.date.year → yearReading? l y' =
+      (ymdDate? y' (monthOfYo l.date.year l.date.ordinal.toNat)
+        (dayOfYo l.date.year l.date.ordinal.toNat)).map fun d => ⟨d, l.time⟩) := by
+  refine ⟨with_year_local l hl.1 y', ?_, ?_⟩
+  · unfold yearReading?; rw [if_pos rfl]
+  · intro hne
+    have h1 := with_year_local l hl.1 y'
+    obtain ⟨n1, _⟩ := ndt_ops_ext l hl.1 0 0 y'
+    unfold withYearLocal at h1
+    rw [if_neg (fun h => hne h.symm), n1] at h1
+    injection h1 with h1
+    exact h1.symm
+
+/-! ### the `Datelike` defaults `quarter`, `year_ce`, `num_days_in_month` on date-times -/
+
+/-- `NaiveDateTime` (every date of the range, every time of day) and `DateTime<FixedOffset>` /
+`DateTime<Utc>` (every well-formed value, wall clock `l` possibly in a headroom day) inherit the three
+`Datelike` default methods; they read the date part resp. the wall clock: quarter = ⌈month/3⌉, the
+common-era pair, the calendar's month length; never a panic (a headroom wall clock is Dec 31 / Jan 1,
+so `Month::num_days` never sees February of an out-of-range year) -/
+theorem datelike_defaults_spec (y : Int) (o : Nat) (hy : MIN_YEAR ≤ y ∧ y ≤ MAX_YEAR) (ho : 1 ≤ o ∧ o ≤ yearLen y)
+    (t : Time) (z : Zoned) (hz : ZInv z) :
+    (NaiveDT.quarter ⟨dateOfYo y o, t⟩ = .ok ((monthOfYo y o - 1) / 3 + 1) ∧
+      NaiveDT.year_ce ⟨dateOfYo y o, t⟩ = .ok (if y < 1 then (false, 1 - y) else (true, y)) ∧
+      NaiveDT.num_days_in_month ⟨dateOfYo y o, t⟩ = .ok (monthLen y (monthOfYo y o))) ∧
+    ∃ l, Zoned.overflowing_naive_local z = .ok l ∧ ExtNDTInv l ∧ instSecs l = wallSecs z ∧
+      Zoned.quarter z = .ok ((monthOfYo l.date.year l.date.ordinal.toNat - 1) / 3 + 1) ∧
+      Zoned.year_ce z = .ok (if l.date.year < 1 then (false, 1 - l.date.year) else (true, l.date.year)) ∧
+      Zoned.num_days_in_month z = .ok (monthLen l.date.year (monthOfYo l.date.year l.date.ordinal.toNat)) := by
+  obtain ⟨q, c, n, _⟩ := calendar_accessors y o hy ho .jan 0
+  constructor
+  · unfold NaiveDT.quarter NaiveDT.year_ce NaiveDT.num_days_in_month
+    dsimp only
+    rw [quarter_eq, year_ce_eq, num_days_in_month_eq]
+    exact ⟨q, c, n⟩
+  · obtain ⟨l, h1, _⟩ := naive_local_spec z hz
+    obtain ⟨h2, h3, _, h5, _⟩ := wall_date_cases z hz l h1
+    obtain ⟨a, b, d⟩ := datelike_ext l.date h5
+    refine ⟨l, h1, h2, h3, ?_, ?_, ?_⟩
+    · unfold Zoned.quarter Zoned.month; rw [h1, bind_ok']; exact a
+    · unfold Zoned.year_ce Zoned.year; rw [h1, bind_ok']; exact b
+    · unfold Zoned.num_days_in_month Zoned.month Zoned.year; rw [h1, bind_ok', bind_ok']; exact d
+
+/-! ### the panicking alias `from_weekday_of_month` -/
+
+/-- `NaiveDate::from_weekday_of_month` (deprecated): the value of `from_weekday_of_month_opt`
+(`nth_weekday_spec`), a panic exactly when that is `None`; every `(year, month, weekday, n)` -/
+theorem from_weekday_of_month_spec (y : Int) (m : Nat) (w : Weekday) (n : Nat) :
+    Date.from_weekday_of_month y m w n =
+      orPanic (if n = 0 then none else ymdDate? y m (nthWeekdayDay y m w.toNat n)) ∧
+    (Date.from_weekday_of_month y m w n = .panic ↔ Date.from_weekday_of_month_opt y m w n = .ok none) := by
+  have h := (nth_weekday_spec y m w n).1
+  have e : Date.from_weekday_of_month y m w n =
+      orPanic (if n = 0 then none else ymdDate? y m (nthWeekdayDay y m w.toNat n)) := by
+    unfold Date.from_weekday_of_month; rw [h, expectSome_ok]
+  refine ⟨e, ?_⟩
+  rw [e, h, orPanic_panic_iff]
+  constructor
+  · intro h'; rw [h']
+  · intro h'; injection h'
+
+/-! ### time-field replacement against the constructors' notion of an existing time -/
+
+/-- **What holds exactly** (audit MEDIUM-2).  `TStrict`: the times the public constructors build (leap
+representation `frac ≥ 10⁹` only on second :59).  For every such time and every `u32` (every
+non-negative) argument: `with_hour` / `with_minute` always return a constructor-valid time;
+`with_second v` does exactly when the time carries no leap representation or `v = 59`;
+`with_nanosecond v` exactly when `v < 10⁹` or the time sits on second :59 -/
+theorem time_with_field_strict (t : Time) (ht : TStrict t) (v : Int) (hv : 0 ≤ v) :
+    (∀ t', t.with_nanosecond v = some t' → (TStrict t' ↔ (v < 1000000000 ∨ t.secs % 60 = 59))) ∧
+    (∀ t', t.with_second v = some t' → (TStrict t' ↔ (t.frac < 1000000000 ∨ v = 59))) ∧
+    (∀ t', t.with_minute v = some t' → TStrict t') ∧ (∀ t', t.with_hour v = some t' → TStrict t') :=
+  strict_iff t ht v hv
+
+/-- "the value with that field changed and all others kept, or nothing if no such time exists", with
+*exists* read as the constructors do (`ctorTime h m s n` = the answer of `from_hms_nano_opt`,
+`ctorTime_is_constructor`): on every constructor-built time `with_hour` and `with_minute` ARE the
+constructor applied to the new field and the three old ones, for every argument; `with_second` and
+`with_nanosecond` are too — EXCEPT on the inputs excluded by hypothesis (a leap representation moved off
+second :59; a leap-range nanosecond put on another second), where `time_with_field_off59` says what
+happens instead.  Partial: the excluded inputs are in the property's quantifier. -/
+theorem time_with_field_constructor_partial (t : Time) (ht : TStrict t) (v : Int) (hv : 0 ≤ v) :
+    t.with_hour v = ctorTime v t.minute t.second t.nanosecond ∧
+    t.with_minute v = ctorTime t.hour v t.second t.nanosecond ∧
+    (¬ (1000000000 ≤ t.frac ∧ v < 59) → t.with_second v = ctorTime t.hour t.minute v t.nanosecond) ∧
+    (¬ (1000000000 ≤ v ∧ v < 2000000000 ∧ t.secs % 60 ≠ 59) →
+      t.with_nanosecond v = ctorTime t.hour t.minute t.second v) :=
+  with_vs_ctor t ht v hv
+
+/-- `ctorTime` is the model of `NaiveTime::from_hms_nano_opt` (C07's, compared by C07's driver) -/
+theorem ctorTime_is_constructor (h m s n : Int) : ctorTime h m s n = Time.from_hms_nano_opt h m s n :=
+  ctorTime_eq_model h m s n
+
+/-- the excluded inputs, universally: `with_second v` (v < 59) on a leap representation and
+`with_nanosecond v` (10⁹ ≤ v < 2·10⁹) off second :59 return a value — the old `secs`/`frac` with the one
+field replaced, as `time_with_field_spec` describes — although the constructor refuses those four
+fields; the value is not constructor-valid (it is `TValid`: the documented "leap second on any second") -/
+theorem time_with_field_off59 (t : Time) (ht : TStrict t) (v : Int) (hv : 0 ≤ v) :
+    (1000000000 ≤ t.frac → v < 59 →
+      t.with_second v = some ⟨t.secs / 60 * 60 + v, t.frac⟩ ∧
+      ctorTime t.hour t.minute v t.nanosecond = none ∧ ¬ TStrict ⟨t.secs / 60 * 60 + v, t.frac⟩) ∧
+    (1000000000 ≤ v → v < 2000000000 → t.secs % 60 ≠ 59 →
+      t.with_nanosecond v = some ⟨t.secs, v⟩ ∧
+      ctorTime t.hour t.minute t.second v = none ∧ ¬ TStrict ⟨t.secs, v⟩) :=
+  off59 t ht v hv
+
+/-- kernel-checked instances of the deviation (observed on the real crate 2026-09-30):
+`00:00:07 .with_nanosecond(1_500_000_000)` and `23:59:59 + leap .with_second(30)` return values that
+`from_hms_nano_opt(0, 0, 7, 1_500_000_000)` / `(23, 59, 30, 1_500_000_000)` refuse -/
+theorem time_with_field_off59_counterexample :
+    TStrict ⟨7, 0⟩ ∧ (⟨7, 0⟩ : Time).with_nanosecond 1500000000 = some ⟨7, 1500000000⟩ ∧
+    Time.from_hms_nano_opt 0 0 7 1500000000 = none ∧ ¬ TStrict ⟨7, 1500000000⟩ ∧
+    TStrict ⟨86399, 1500000000⟩ ∧ (⟨86399, 1500000000⟩ : Time).with_second 30 = some ⟨86370, 1500000000⟩ ∧
+    Time.from_hms_nano_opt 23 59 30 1500000000 = none ∧ ¬ TStrict ⟨86370, 1500000000⟩ := by decide
+
+/-! ### `NaiveDateTime` time-field replacement in one statement; the `as u32` cast of `years_since`;
+one month away is `Month::succ` / `Month::pred` -/
+
+/-- `NaiveDateTime::with_hour / with_minute / with_second / with_nanosecond`, every date part (no
+hypothesis on it), every well-formed time of day, every `u32` (non-negative) argument: no panic; `None`
+exactly when hour ≥ 24 / minute ≥ 60 / second ≥ 60 / nanosecond ≥ 2·10⁹; otherwise the date is kept and
+the time shows the new value in the named field and the old values in the other three -/
+theorem naive_datetime_time_fields_spec (dt : NaiveDT) (ht : TValid dt.time) (v : Int) (hv : 0 ≤ v) :
+    (∃ r, dt.with_hour v = .ok r ∧ (r = none ↔ 24 ≤ v) ∧ ∀ x, r = some x → x.date = dt.date ∧
+      HasFields x.time v dt.time.minute dt.time.second dt.time.nanosecond) ∧
+    (∃ r, dt.with_minute v = .ok r ∧ (r = none ↔ 60 ≤ v) ∧ ∀ x, r = some x → x.date = dt.date ∧
+      HasFields x.time dt.time.hour v dt.time.second dt.time.nanosecond) ∧
+    (∃ r, dt.with_second v = .ok r ∧ (r = none ↔ 60 ≤ v) ∧ ∀ x, r = some x → x.date = dt.date ∧
+      HasFields x.time dt.time.hour dt.time.minute v dt.time.nanosecond) ∧
+    (∃ r, dt.with_nanosecond v = .ok r ∧ (r = none ↔ 2000000000 ≤ v) ∧ ∀ x, r = some x → x.date = dt.date ∧
+      HasFields x.time dt.time.hour dt.time.minute dt.time.second v) := by
+  obtain ⟨⟨a1, a2⟩, ⟨b1, b2⟩, ⟨c1, c2⟩, ⟨d1, d2⟩⟩ := time_with_field_spec dt.time v ht hv
+  have key : ∀ (o : Option Time) (P : Time → Prop), (∀ t', o = some t' → P t') →
+      ∀ x, (o.map fun t => (⟨dt.date, t⟩ : NaiveDT)) = some x → x.date = dt.date ∧ P x.time := by
+    intro o P hP x hx
+    cases o with
+    | none => cases hx
+    | some t => cases hx; exact ⟨rfl, hP t rfl⟩
+  have hn : ∀ (o : Option Time), (o.map fun t => (⟨dt.date, t⟩ : NaiveDT)) = none ↔ o = none := by
+    intro o; cases o with
+    | none => exact ⟨fun _ => rfl, fun _ => rfl⟩
+    | some t => exact ⟨fun h => (by cases h), fun h => (by cases h)⟩
+  refine ⟨⟨_, rfl, (hn _).trans a1, key _ _ a2⟩, ⟨_, rfl, (hn _).trans b1, key _ _ b2⟩,
+    ⟨_, rfl, (hn _).trans c1, key _ _ c2⟩, ⟨_, rfl, (hn _).trans d1, key _ _ d2⟩⟩
+
+/-- the count `years_since` returns fits `u32` (indeed `0 ≤ k ≤ MAX_YEAR − MIN_YEAR`), so the final
+`as u32` cast — not modelled, `r : Option Int` — is the identity -/
+theorem years_since_fits_u32 (y1 y0 : Int) (o1 o0 : Nat) (hy1 : MIN_YEAR ≤ y1 ∧ y1 ≤ MAX_YEAR)
+    (hy0 : MIN_YEAR ≤ y0 ∧ y0 ≤ MAX_YEAR) (ho1 : 1 ≤ o1 ∧ o1 ≤ yearLen y1) (ho0 : 1 ≤ o0 ∧ o0 ≤ yearLen y0) :
+    ∀ k, (dateOfYo y1 o1).years_since (dateOfYo y0 o0) = .ok (some k) →
+      0 ≤ k ∧ k ≤ 524285 ∧ asU32 k = k := by
+  intro k hk
+  obtain ⟨r, h1, h2, _⟩ := years_since_spec y1 y0 o1 o0 hy1 hy0 ho1 ho0
+  rw [h1] at hk
+  injection hk with hk
+  have hw := (h2 k).mp hk
+  have hMIN : MIN_YEAR = -262143 := rfl
+  have hMAX : MAX_YEAR = 262142 := rfl
+  unfold WholeYears ymdLe ymdLt at hw
+  have hb : 0 ≤ k ∧ k ≤ 524285 := by omega
+  exact ⟨hb.1, hb.2, asU32_id (by omega) (by omega)⟩
+
+/-- stepping by one month lands in `Month::succ` (December → January of the next year), by minus one in
+`Month::pred` (January → December of the year before); `Month::February.num_days` is 29 exactly in the
+leap years of the Gregorian rule, for every year of the range -/
+theorem month_step_succ_pred (y : Int) (mo : Month) :
+    stepMonth y (mo.toNat + 1) 1 = mo.succ.toNat + 1 ∧
+    stepMonth y (mo.toNat + 1) (-1) = mo.pred.toNat + 1 ∧
+    stepYear y (mo.toNat + 1) 1 = (if mo = .dec then y + 1 else y) ∧
+    stepYear y (mo.toNat + 1) (-1) = (if mo = .jan then y - 1 else y) ∧
+    (MIN_YEAR ≤ y ∧ y ≤ MAX_YEAR →
+      Month.feb.num_days y = .ok (some (if y % 4 = 0 ∧ (y % 100 ≠ 0 ∨ y % 400 = 0) then 29 else 28))) := by
+  refine ⟨?_, ?_, ?_, ?_, ?_⟩
+  · cases mo <;> (unfold stepMonth monthIndex; simp only [Month.toNat, Month.succ]; omega)
+  · cases mo <;> (unfold stepMonth monthIndex; simp only [Month.toNat, Month.pred]; omega)
+  · cases mo <;> (unfold stepYear monthIndex; simp only [Month.toNat]; first | (rw [if_neg (by decide)]; omega) | (rw [if_pos trivial]; omega))
+  · cases mo <;> (unfold stepYear monthIndex; simp only [Month.toNat]; first | (rw [if_neg (by decide)]; omega) | (rw [if_pos trivial]; omega))
+  · intro hy
+    have h := month_num_days_spec .feb y
+    rw [h, if_neg (by intro hc; omega)]
+    refine congrArg (fun x => Res.ok (some x)) ?_
+    unfold monthLen isLeap
+    simp only [Month.toNat]
+    by_cases c : y % 4 = 0 ∧ (y % 100 ≠ 0 ∨ y % 400 = 0)
+    · rw [if_pos c]
+      have : (y % 4 == 0 && (y % 100 != 0 || y % 400 == 0)) = true := by
+        simp only [Bool.and_eq_true, Bool.or_eq_true, beq_iff_eq, bne_iff_ne, ne_eq]; exact c
+      rw [this]; rfl
+    · rw [if_neg c]
+      have : (y % 4 == 0 && (y % 100 != 0 || y % 400 == 0)) = false := by
+        apply Bool.eq_false_iff.mpr
+        simp only [Bool.and_eq_true, Bool.or_eq_true, beq_iff_eq, bne_iff_ne, ne_eq]; exact c
+      rw [this]; rfl
+
 /-! ### non-vacuity: the hypotheses are met, and the interesting branches are reached -/
 
 /-- Jan 31 + 1 month clamps to Feb 29 in a leap year and Feb 28 otherwise; December rolls the year;
@@ -686,5 +1050,55 @@ example :
     Zoned.years_since ⟨⟨dateOfYo 2024 60, ⟨43200, 0⟩⟩, 1⟩ ⟨⟨dateOfYo 2024 60, ⟨43200, 0⟩⟩, 0⟩ = .ok (some 0) ∧
     Zoned.years_since ⟨NaiveDT.MAX, 86399⟩ ⟨NaiveDT.MIN, -86399⟩ = .ok (some 524286) ∧
     Zoned.time ⟨⟨dateOfYo 2024 60, ⟨86390, 5⟩⟩, 17⟩ = .ok ⟨7, 5⟩ := by decide +kernel
+
+/-- operator forms: Jan 31 + 1 month = Feb 29; the range ends panic; `Months(0)` never does; the
+`NaiveDateTime` form keeps the time; the zone-aware form panics when the checked one refuses;
+`from_weekday_of_month` panics on a missing 5th Monday; the inherited `Datelike` defaults on a headroom
+wall clock (MAX_UTC viewed at +01:00 reads Jan 1 of the year after MAX_YEAR) -/
+example :
+    (dateOfYo 2024 31).add_months_op 1 = .ok (dateOfYo 2024 60) ∧
+    (dateOfYo 2024 91).sub_months_op 1 = .ok (dateOfYo 2024 60) ∧
+    Date.MAX.add_months_op 1 = .panic ∧ Date.MIN.sub_months_op 1 = .panic ∧
+    Date.MAX.add_months_op 0 = .ok Date.MAX ∧
+    (dateOfYo 2024 31).sub_months_op 4294967295 = .panic ∧
+    NaiveDT.add_months_op ⟨dateOfYo 2024 31, ⟨86399, 1500000000⟩⟩ 1 = .ok ⟨dateOfYo 2024 60, ⟨86399, 1500000000⟩⟩ ∧
+    NaiveDT.sub_months_op ⟨Date.MIN, ⟨0, 0⟩⟩ 1 = .panic ∧
+    Zoned.add_months_op ⟨⟨dateOfYo 2024 31, ⟨86390, 0⟩⟩, 17⟩ 1 = .ok ⟨⟨dateOfYo 2024 60, ⟨86390, 0⟩⟩, 17⟩ ∧
+    Zoned.add_months_op ⟨NaiveDT.MAX, 3600⟩ 0 = .ok ⟨NaiveDT.MAX, 3600⟩ ∧
+    Zoned.add_months_op ⟨NaiveDT.MAX, 3600⟩ 1 = .panic ∧
+    Zoned.sub_months_op ⟨NaiveDT.MAX, 3600⟩ 1 = .ok ⟨⟨dateOfYo MAX_YEAR 334, ⟨86399, 999999999⟩⟩, 3600⟩ ∧
+    Date.from_weekday_of_month 2017 3 .fri 2 = .ok (dateOfYo 2017 69) ∧
+    Date.from_weekday_of_month 2023 4 .mon 5 = .panic ∧
+    Zoned.quarter ⟨NaiveDT.MAX, 3600⟩ = .ok 1 ∧ Zoned.year_ce ⟨NaiveDT.MAX, 3600⟩ = .ok (true, 262143) ∧
+    Zoned.num_days_in_month ⟨NaiveDT.MAX, 3600⟩ = .ok 31 ∧
+    Zoned.year_ce ⟨NaiveDT.MIN, -3600⟩ = .ok (false, 262145) ∧
+    NaiveDT.num_days_in_month ⟨dateOfYo 2024 60, ⟨0, 0⟩⟩ = .ok 29 ∧
+    ExtNDTInv ⟨Date.AFTER_MAX, ⟨3599, 0⟩⟩ ∧
+    NaiveDT.checked_sub_months ⟨Date.AFTER_MAX, ⟨3599, 0⟩⟩ 1 = .ok (some ⟨dateOfYo MAX_YEAR 335, ⟨3599, 0⟩⟩) ∧
+    NaiveDT.checked_add_months ⟨Date.AFTER_MAX, ⟨3599, 0⟩⟩ 0 = .ok (some ⟨Date.AFTER_MAX, ⟨3599, 0⟩⟩) := by
+  decide +kernel
+
+/-- constructors' view of time-field replacement: agreement off the deviation set, both kinds of
+deviation, and a `TStrict` input for `time_with_field_strict` -/
+example :
+    TStrict ⟨86399, 1500000000⟩ ∧ ¬ TStrict ⟨3570, 1500000000⟩ ∧
+    (⟨86399, 1500000000⟩ : Time).with_second 59 = ctorTime 23 59 59 1500000000 ∧
+    (⟨86399, 1500000000⟩ : Time).with_minute 3 = ctorTime 23 3 59 1500000000 ∧
+    ctorTime 23 3 59 1500000000 = some ⟨83039, 1500000000⟩ ∧
+    (⟨86399, 0⟩ : Time).with_nanosecond 1999999999 = ctorTime 23 59 59 1999999999 ∧
+    (⟨7, 5⟩ : Time).with_second 60 = ctorTime 0 0 60 5 ∧ ctorTime 0 0 60 5 = none ∧
+    ctorTime 0 0 7 1500000000 = none := by decide
+
+/-- `NaiveDateTime` time fields, the bound of `years_since`, one month away -/
+example :
+    TValid (⟨dateOfYo 2024 60, ⟨86399, 1500000000⟩⟩ : NaiveDT).time ∧
+    NaiveDT.with_second ⟨dateOfYo 2024 60, ⟨86399, 1500000000⟩⟩ 60 = .ok none ∧
+    NaiveDT.with_nanosecond ⟨dateOfYo 2024 60, ⟨7, 0⟩⟩ 1999999999 = .ok (some ⟨dateOfYo 2024 60, ⟨7, 1999999999⟩⟩) ∧
+    Date.MAX.years_since Date.MIN = .ok (some 524285) ∧
+    stepMonth 2024 12 1 = 1 ∧ stepYear 2024 12 1 = 2025 ∧ stepMonth 2024 1 (-1) = 12 ∧ stepYear 2024 1 (-1) = 2023 ∧
+    Month.feb.num_days 1900 = .ok (some 28) ∧ Month.feb.num_days 2000 = .ok (some 29) ∧
+    withYearLocal 262143 ⟨Date.AFTER_MAX, ⟨3599, 0⟩⟩ = .ok (some ⟨Date.AFTER_MAX, ⟨3599, 0⟩⟩) ∧
+    withYearLocal 2024 ⟨Date.AFTER_MAX, ⟨3599, 0⟩⟩ = .ok (some ⟨dateOfYo 2024 1, ⟨3599, 0⟩⟩) ∧
+    yearReading? ⟨Date.AFTER_MAX, ⟨3599, 0⟩⟩ 262144 = none := by decide +kernel
 
 end Chrono.Props.C08
